@@ -125,12 +125,14 @@ def run_program(prog, rng, *, origins=None, relay=False, spec_ab=None, spec_ba=N
             rig.violation("livelock", None, "after heal: the same TSN is retransmitted again and again with no progress",
                           diagnostics=rig.diagnostics(),
                           lowest_rtx={d: dict(list(c.most_common(2))) for d, c in rig.lowest_rtx.items()})
-        # PR post-heal obligation (C06): every message sent after heal on every channel is delivered
-        if rig.association_alive() and outcome == "idle":
+        # PR post-heal obligation (C06): every probe message (sent on the healed network from a quiescent
+        # association) is delivered on partially reliable channels too
+        if rig.association_alive() and outcome == "idle" and result.get("drain2") == "idle":
             und = rig.undelivered(only_reliable=False, post_heal_only=True)
             und = [u for u in und if not rig.chans[u[0]].reliable]
+            rig.counters["pr_postheal_checks"] += 1
             if und:
-                rig.violation("pr-postheal", None, f"messages sent after heal on PR channels not delivered: {und[:3]}",
+                rig.violation("pr-postheal", None, f"messages sent after heal+quiescence on PR channels not delivered: {und[:3]}",
                               diagnostics=rig.diagnostics())
         if post_hook is not None:
             post_hook(rig, result)
